@@ -59,6 +59,8 @@ def build_c18(thorough, rnd):
         for j, air in enumerate(single + tri_s + wide):
             if not thorough and j % 3 and j >= 50:
                 continue
+            if kind == "argparse" and not CC.argparse_domain(air):
+                continue
             scs.append(CC._sc(len(scs), ts[j % len(ts)], air, acts))
     return scs
 
@@ -134,9 +136,12 @@ def run(prop, propose=False, replay=None):
         meta = metas[tr["id"]]
         failset = {(s, c, sl) for (s, c, sl) in fails.get(tr["id"], [])}
         seen = set()
+        first_fail = min((s for (s, _, _) in failset), default=None)
         for (l, cl, slot, feat) in CC.instances(tr, meta):
             n_inst += 1
             bad = (l, cl, slot) in failset
+            feat["prior_fail"] = first_fail is not None and first_fail < l and feat.get("hop", 1) >= 2
+            feat["ll"] = meta["env"].get("DOCTRANS_LINE_LENGTH", "unset")
             seen.add((l, cl, slot))
             if not bad:
                 if propose:
